@@ -605,7 +605,10 @@ class EEnum(EDataType):
                 self.__setattr__(literal.name, literal)
             elif notif.kind is Kind.REMOVE:
                 literal = notif.old
-                del self.__dict__[literal.name]
+                # the literal may have been renamed since it was added
+                for key, value in list(self.__dict__.items()):
+                    if value is literal:
+                        del self.__dict__[key]
 
     @property
     def default_value(self):
